@@ -53,7 +53,49 @@ CHECKS = {
 }
 
 # properties whose proof modules are merged into lean/ and whose check passes on the clean tree
-READY = ["C02", "C08", "C09"]
+READY = ["C01", "C02", "C04", "C06", "C07", "C08", "C09", "C18"]
+
+CHECKS.update({
+    "C04": dict(
+        text="Theorems on the GENERATED Fokker-Planck stencil (all n, e1, delta, grid positions): column moments of order "
+             "0,1,2 for the 3-point stencil in all four variants and for the 4-point stencil away from the switch row; one "
+             "step maps the energy moments by m0'=m0, m1'=(1-e1)m1, m2'=(1-2e1)m2+e1(2-delta^2)m0 (interior data), with "
+             "the boundary leakage as an explicit remainder carried by the four outermost columns; closed form, "
+             "monotonicity, perturbed-contraction bound and convergence (over R) of the induced recurrence for "
+             "0<e1<1/2; damping-only shrinks, diffusion-only grows, none = identity. The real map is iterated for "
+             "several damping times and compared with the recurrence; the Lean model iterates bitwise alongside.",
+        note="Pure Fokker-Planck iteration; the rotation-coupled relaxation rate of the bunch length is not proved "
+             "(C03 gives the rotation). Binary-level /BunchLength,/EnergySpread series are measured in the thorough tier.",
+        technique="Lean 4 proof (moment calculus by ring/field_simp on the translated stencil, induction over steps, real analysis for the limit) + translator + bitwise iteration correspondence",
+        ref="DESIGN.md 7/C04"),
+    "C06": dict(
+        text="Theorems for all transform lengths, bunch counts, bucket layouts, complex impedances and profiles (any "
+             "field, naive-sum transforms): the state machine computes scale*c2r(Z|k<N/2 * r2c(pad(profiles))) read "
+             "back at bucket*spacing; padding places disjoint windows exactly; wake is linear in the profiles; depends "
+             "only on Z_k, k<N/2; cyclic shift of the train shifts the wake (twiddle group law); scaling identity. "
+             "FFTW = naive sums is an assumption validated numerically (Lean binary64 model and numpy).",
+        note="Float FFT rounding is outside the theorems (tolerance 2e-5 of the line scale in the correspondence).",
+        technique="Lean 4 proof (finite-sum algebra over a pair-encoded complex field) + numeric correspondence against naive DFT",
+        ref="DESIGN.md 7/C06"),
+    "C07": dict(
+        text="Theorems: spectrum entries, power and power-with-cutoff are >= 0 for Re Z >= 0 for ANY forward transform "
+             "(ordered field); cutoff factor in [0,1] makes the power smaller; Parseval pairing 1/2 sum rho*W = 1/2 ReZ0|F0|^2 "
+             "+ sum_{0<k<N/2} ReZk|Fk|^2 and power = df*r*sum_{i<=N/2} ReZi|Fi|^2 (naive transforms), i.e. they agree "
+             "apart from the zero-frequency and Nyquist terms. Oracle checks signs on bit patterns and the identity on "
+             "the real class for random passive impedances.",
+        note="exp() of the cutoff enters as hypothesis 0<=f<=1; monotone rounding (IEEE) carries non-negativity to binary32.",
+        technique="Lean 4 proof (ordered-field sign lemmas, finite-sum algebra) + numeric correspondence",
+        ref="DESIGN.md 7/C07"),
+    "C18": dict(
+        text="Theorem: for ALL histories of wake/pad/csr calls on any profiles, all lengths, bunch patterns and ANY "
+             "library transforms satisfying ClobOK, the observables of an operation equal those of a fresh object "
+             "(invariant: never-rewritten parts of the complex buffers are still zero). Oracle: bitwise history-vs-"
+             "fresh comparison on the real class.",
+        note="ClobOK (FFTW's c2r leaves input entries k >= N/2 unchanged) is a library assumption, checked empirically. "
+             "Model follows the code after fix 537a8d6.",
+        technique="Lean 4 proof (state-machine invariant, induction over histories) + bitwise history-vs-fresh oracle",
+        ref="DESIGN.md 7/C18"),
+})
 
 PENDING = {
     "C01": "check under construction in this round (proofs being merged)",
